@@ -84,4 +84,40 @@ mod verif_kani {
         }
         core::mem::forget(msg);
     }
+
+    /// Quick-tier companions of `vk_u10_trigger_huge_len`: two fully concrete messages whose length prefix sits at the
+    /// overflow points of any byte-size computation (2^61 targets; 2^64 - 1 targets). Concrete inputs keep CBMC fast.
+    fn huge_len_concrete(data: &[u8]) {
+        let registry = MaybeUninit::<AppTypeRegistry>::uninit();
+        let mut ctx = ServerReceiveCtx {
+            type_registry: unsafe { &*registry.as_ptr() },
+        };
+        let mut msg = Bytes::copy_from_slice(data);
+        let r = trigger_deserialize::<u8>(&mut ctx, &mut msg, de_u8);
+        match r {
+            Ok(t) => {
+                assert!(false, "a length prefix far beyond the message cannot decode");
+                core::mem::forget(t);
+            }
+            Err(e) => {
+                kani::cover!(true);
+                core::mem::forget(e);
+            }
+        }
+        core::mem::forget(msg);
+    }
+
+    #[kani::proof]
+    #[kani::unwind(13)]
+    #[kani::stub(std::backtrace::Backtrace::capture, no_backtrace)]
+    fn vk_u10_trigger_len_2_61() {
+        huge_len_concrete(&[0x80, 0x80, 0x80, 0x80, 0x80, 0x80, 0x80, 0x80, 0x20]);
+    }
+
+    #[kani::proof]
+    #[kani::unwind(13)]
+    #[kani::stub(std::backtrace::Backtrace::capture, no_backtrace)]
+    fn vk_u10_trigger_len_max() {
+        huge_len_concrete(&[0xff, 0xff, 0xff, 0xff, 0xff, 0xff, 0xff, 0xff, 0xff, 0x01]);
+    }
 }
